@@ -3,6 +3,10 @@
 import json
 props=[json.loads(l) for l in open('/verif/properties.jsonl')]
 claimed={
+ "C01": dict(level="model_checking",
+   text="Per object kind, the real UnmarshalJSON/MarshalJSON code is executed symbolically on a normal-form document in which the presence of every keyword of the shipped meta-schemas is a solver variable, so one path decides all keyword combinations; member-wise JSON equality of input and output is a set of z3 obligations. Names of extensions, unknown keywords and properties are symbolic bytes. Genuine losses are fixed in /repo (raw property names, header extensions) or listed as known findings ($schema '#', xml/externalDocs extensions).",
+   note="Trusted: SSA executor, z3, M-json contract model of encoding/json (field tables regenerated from the current source), M-swag.ConcatJSON. Bounds: depth 1 with minimal children, names of 1/2 symbolic bytes, 1/2 extensions and unknown keywords, one-at-a-time variation of shapes.",
+   design="4 C01", technique="bounded symbolic execution of go/ssa with symbolic member presence + SMT (z3), counterexample replay"),
  "C11": dict(level="model_checking",
    text="Bounded symbolic execution of the base-location normaliser through the public resolver: a canonical location with byte-symbolic path segments and a re-spelling of it (operator and position are explored exhaustively, segment bytes are solver variables) must make the loader see identical, canonical URLs; idempotence of normalisation is asserted on the URL the loader received. A genuine defect found this way (file: base with query) was repaired in /repo (fix: commit e9dc163).",
    note="Trusted: SSA executor, z3, M-regexp, M-os (working directory stub). Bounds: <=2/3 segments of <=2 bytes over a 11-value alphabet, one re-spelling operator.",
